@@ -153,6 +153,14 @@ CLAIMED = {
         technique="Lean 4 proof (induction over outcome words) + exhaustive differential vs real _watchdog_feed",
         note="zigpy.util.Requests is shimmed harness-side to construct the application object. ",
     ),
+    "C17": dict(
+        text="Model of wait_for_stack_status / formNetwork / leaveNetwork / _ensure_network_running / _list_command at settled loop states; listeners and scan callbacks are derived from the operations in progress. Theorems: the step that reports an outcome (success, refusal, timeout, cancellation, failed completion) removes the operation and with it its listener and callback; listeners and callbacks belong only to operations in progress; "
+        "the matching event completes the operation whether it arrives after or before the command's own response; an event processed before the operation started, or a non-matching one, does not — the operation then raises TimeoutError exactly the operation timeout (generated, = 10 s) after its command succeeded; a refused command ends the operation at once with nothing left registered; bring-up: already joined ⇒ no command beyond networkState, not-joined ⇒ NetworkNotFormed; "
+        "scan: the result list is, in order, every result callback from issue to completion, none from before the issue, a failed completion raises; result callbacks are appended to every scan in progress and nothing else. Tie: generated timeouts + real EZSP.formNetwork/leaveNetwork/startScan and real ControllerApplication._ensure_network_running (handlers v4/v8/v14) with a scripted command layer on a virtual clock: every event order ≤ 3 (5 thorough) for the status operations, ≤ 4 (6) for scans, random scripts with up to four overlapping operations; oracle incl. listener/callback counts after every event.",
+        ref="6 C17",
+        technique="Lean 4 proof (symbolic evaluation of event orders, structural no-leak argument) + exhaustive event-order differential vs real EZSP operations on a virtual clock",
+        note="Granularity is settled loop states; a result callback that lands between the completion frame and the caller's wake-up is included in the result list (model and code agree). _list_command has no timeout of its own. ",
+    ),
     "C18": dict(
         text="Theorems over the generated SL_STATUS_MAP (regenerated from the imported module every run): pass-through for every unified value, "
         "OK ⇔ success code for all 256 codes of both 8-bit families (decide +kernel over the whole table, lifted to ∀ c < 256), literal steering-code table. "
